@@ -44,6 +44,7 @@ def run(rep, tier):
     disjoint_table(rep, F)
     boundary_tables(rep, F)
     exactness(rep, F)
+    dimension_tables(rep, F)
 
 
 # ------------------------------------------------------------------------------------------------
@@ -346,3 +347,151 @@ def exactness(rep, F):
         rep.bad("R1.5", "intersector", "a branch depends on %s" % sorted(bad[0][2])[0], where=fn.loc())
     else:
         rep.ok("R1.5", "intersector-clean")
+    # the whole relate module: every branch that depends on rounded arithmetic must be one of the confirmed, harmless sites
+    n = 0
+    for g in F.lib_fns(("geo",)):
+        if not g.path.startswith("geo::algorithm::relate::"):
+            continue
+        n += 1
+        for bb, _, labels in T.switch_labels(g):
+            for lab in sorted(labels):
+                why = None
+                for (fre, ore), reason in EXACT_EXEMPT.items():
+                    if re.search(fre, g.path) and re.search(ore, lab):
+                        why = reason
+                if why is None:
+                    rep.bad("R1.5", "relate-branch:%s" % short(g.path), "a branch of the relate pipeline depends on %s: topology decided on a rounded value "
+                            "(nearly collinear / nearly parallel input flips it)" % lab, where=g.loc())
+                    break
+    rep.floor("R1.5", "relate functions scanned", n, 200)
+
+
+# (function regex, label-origin regex) -> why a dependence on rounded arithmetic is harmless there
+EXACT_EXEMPT = {
+    (r"geomgraph::edge::Edge::<F>::add_intersection$", r"compute_edge_distance$"):
+        "orders already computed intersection points along one edge (JTS edge distance); no decision about input coordinates",
+    (r"RobustLineIntersector::compute_edge_distance$", r"compute_edge_distance$"): "same",
+    (r"RelateOperation::.*compute_intersection_matrix$", r"rounded arithmetic sub in .*edge_end::EdgeEnd::<F>::new$"):
+        "dx/dy of an edge end: only their signs are consumed (Quadrant), and the sign of an IEEE difference is exact",
+}
+
+
+# ------------------------------------------------------------------------------------------------
+DIMS = ["Empty", "ZeroDimensional", "OneDimensional", "TwoDimensional"]
+DADT = "geo::algorithm::dimensions::Dimensions"
+
+
+def dimension_tables(rep, F):
+    """R1.6: the disjoint shortcut fills the matrix from dimensions() / boundary_dimensions() of the operands; for the
+    container types these are folds over the members.  Their path tables (two members unrolled) are evaluated on every
+    assignment of member attributes and compared with: dimensions = max over members; boundary of a MultiLineString is
+    empty iff every member is closed (or it has no 1-dimensional member), else 0-dimensional; boundary of a collection =
+    max over member boundaries; boundary of an areal container is one less than its dimension."""
+    import itertools
+    from ..evalterm import Enum, NoModel
+    from ..memberfold import select
+    rep.rule("R1.6", "dimensions() / boundary_dimensions() / is_closed of the container types are the right folds over their members (tables on all member assignments, two members unrolled)")
+    HD = "geo::algorithm::dimensions::HasDimensions"
+    D = lambda i: Enum(DADT, DIMS[i])
+
+    def member_choices(kind):
+        # (dimensions, boundary_dimensions, is_closed, is_empty) of one member
+        if kind == "LineString":
+            return [dict(dimensions=D(0), boundary_dimensions=D(0), is_closed=True, is_empty=True),      # first() == last() == None
+                    dict(dimensions=D(1), boundary_dimensions=D(0), is_closed=True, is_empty=False),     # all coordinates equal
+
+                    dict(dimensions=D(2), boundary_dimensions=D(0), is_closed=True, is_empty=False),
+                    dict(dimensions=D(2), boundary_dimensions=D(1), is_closed=False, is_empty=False)]
+        if kind == "Polygon":
+            return [dict(dimensions=D(0), boundary_dimensions=D(0), is_empty=True),
+                    dict(dimensions=D(1), boundary_dimensions=D(0), is_empty=False),
+                    dict(dimensions=D(2), boundary_dimensions=D(1), is_empty=False),
+                    dict(dimensions=D(3), boundary_dimensions=D(2), is_empty=False)]
+        return [dict(dimensions=D(0), boundary_dimensions=D(0), is_empty=True),
+                dict(dimensions=D(1), boundary_dimensions=D(0), is_empty=False),
+                dict(dimensions=D(2), boundary_dimensions=D(0), is_empty=False),
+                dict(dimensions=D(2), boundary_dimensions=D(1), is_empty=False),
+                dict(dimensions=D(3), boundary_dimensions=D(2), is_empty=False)]
+
+    def idx(e):
+        return DIMS.index(e.variant)
+
+    def spec_dims(ms):
+        return max([idx(m["dimensions"]) for m in ms] or [0])
+
+    def spec_bdims(kind, ms):
+        if kind == "LineString":
+            d = spec_dims(ms)
+            if d < 2 or all(m["is_closed"] for m in ms):
+                return 0
+            return 1
+        if kind == "Polygon":
+            return max(spec_dims(ms) - 1, 0)
+        return max([idx(m["boundary_dimensions"]) for m in ms] or [0])
+
+    cases = [("MultiLineString", r"multi_line_string::MultiLineString<C>$", "LineString"),
+             ("MultiPolygon", r"multi_polygon::MultiPolygon<C>$", "Polygon"),
+             ("GeometryCollection", r"geometry_collection::GeometryCollection<C>$", "Geometry")]
+    attrs = ("dimensions", "boundary_dimensions", "is_closed", "is_empty")
+    for cname, cre, mkind in cases:
+        for meth in ("dimensions", "boundary_dimensions"):
+            key = "%s::%s" % (cname, meth)
+            try:
+                fn = F.impl_method(HD, cre, None, meth, crates=("geo",))
+                paths = opaque(F, loop_bound=3).run(fn)
+            except (KeyError, Unanalysable) as e:
+                rep.bad("R1.6", key + ":anchor", str(e))
+                continue
+            n = 0
+            bad = None
+            for k in (0, 1, 2):
+                for ms in itertools.product(member_choices(mkind), repeat=k):
+                    ms = list(ms)
+                    whole = {"dimensions": D(spec_dims(ms)), "is_closed": all(m.get("is_closed", True) for m in ms),
+                             "is_empty": all(m["is_empty"] for m in ms), "boundary_dimensions": D(spec_bdims(mkind, ms))}
+                    whole.pop(meth)
+                    try:
+                        hits = [(p, ev) for p, ev in select(F, paths, ms, whole, attrs) if p.kind != "cut"]
+                        if len(hits) != 1:
+                            bad = "assignment %s selects %d rows" % (describe(ms), len(hits))
+                            break
+                        p, ev = hits[0]
+                        if p.kind == "panic":
+                            bad = "panics for members %s" % describe(ms)
+                            break
+                        got = idx(ev.ev(p.ret))
+                    except NoModel as e:
+                        bad = "not a function of the members' dimensions / closedness (%s)" % e
+                        break
+                    want = spec_dims(ms) if meth == "dimensions" else spec_bdims(mkind, ms)
+                    n += 1
+                    if got != want:
+                        bad = "for members %s the result is %s, expected %s" % (describe(ms), DIMS[got], DIMS[want])
+                        break
+                if bad:
+                    break
+            if bad:
+                rep.bad("R1.6", key, bad + (": the disjoint-envelope shortcut of relate then writes a wrong boundary/interior cell" if meth == "boundary_dimensions" else ""), where=fn.loc())
+            else:
+                rep.ok("R1.6", "%s[%d assignments]" % (key, n))
+    # MultiLineString::is_closed is an `all` fold over the members' is_closed
+    try:
+        fn = F.one(r"^geo_types::geometry::multi_line_string::MultiLineString::<T>::is_closed$", crates=("geo_types",))
+        kinds = []
+        inner = []
+        for g in [fn] + F.closures_of(fn):
+            for c in g.calls():
+                if c.trait == "core::iter::traits::iterator::Iterator" and c.method in ("all", "any"):
+                    kinds.append(c.method)
+                if (c.path or "").endswith("LineString::<T>::is_closed"):
+                    inner.append(c.path)
+        if kinds == ["all"]:
+            rep.ok("R1.6", "MultiLineString::is_closed=all")
+        else:
+            rep.bad("R1.6", "MultiLineString::is_closed", "is_closed folds its members with %s, expected all(LineString::is_closed)" % kinds, where=fn.loc())
+    except KeyError as e:
+        rep.bad("R1.6", "MultiLineString::is_closed:anchor", str(e))
+
+
+def describe(ms):
+    return "[" + ", ".join("%s%s" % (m["dimensions"].variant, "/closed" if m.get("is_closed") else "") for m in ms) + "]"
